@@ -196,6 +196,31 @@ func (l *List[T]) PopBack() *Node[T] {
 	return last
 }
 
+// PopBackIfLonger removes and returns the last element of list l if the list holds more than
+// min elements, and nil otherwise. Length check and removal are one critical section, so
+// concurrent callers can never take the list below min elements.
+func (l *List[T]) PopBackIfLonger(min int) *Node[T] {
+	l.mx.Lock()
+	defer l.mx.Unlock()
+
+	if l.len == 0 || l.len <= min {
+		return nil
+	}
+
+	last := l.root.prev
+	if last == &l.root { // Check that it's not the sentinel node
+		return nil
+	}
+
+	last.prev.next = last.next
+	last.next.prev = last.prev
+	last.next = nil // avoid memory leaks
+	last.prev = nil // avoid memory leaks
+	l.len--
+
+	return last
+}
+
 // PopFront removes and returns the first element of list l
 // If the list is empty, it returns nil
 func (l *List[T]) PopFront() *Node[T] {
